@@ -7,9 +7,11 @@
     does). Every [ExecContext] and [WriteRevision] call pops one boolean of an
     arbitrary fault stream. The journal is the list of successful Exec events.
 
-    Setting of the history theorems (section [Hist]): one directory [all] whose
-    files are strictly sorted by version and contain no checkpoint file; every
-    run uses that directory, no baseline version, and is allowed to start
+    Setting of the history theorems (section [Hist]): one directory [full] whose
+    files are strictly sorted by version (checkpoint files allowed: the files to
+    run are [all] = the directory from its last checkpoint file on, the earlier
+    files are never run); every run uses that directory, no baseline version, and
+    is allowed to start
     ([cfg_ok]: the database is clean or --allow-dirty); any execution order, any
     count argument [n], any fault stream per run; the first run starts from the
     empty revision table. [hash_eqb] decides equality of hashes; nothing is
@@ -53,9 +55,9 @@ Theorem C09_stop_on_fault :
     after_fail e es2 /\ exec_events es2 = [].
 Proof. exact (execute_n_stops hash heq HS). Qed.
 
-Variable all : list file.
-Hypothesis all_sorted : sorted_files all.
-Hypothesis all_no_checkpoint : forall f, In f all -> f_ckpt f = false.
+Variable full : list file.
+Hypothesis full_sorted : sorted_files full.
+Notation all := (from_last_ckpt full).
 
 (** 1. Never overclaims. Cut the events of any sequence of runs at any point
     (inside a run, between two calls): the journal so far is the plan up to a
@@ -65,7 +67,7 @@ Hypothesis all_no_checkpoint : forall f, In f all -> f_ckpt f = false.
     claims at most its statement count and records the cumulative hashes of
     exactly the claimed statements ([claim_ok]; none once complete). *)
 Theorem C09_never_overclaims :
-  forall rs : list run, Forall (run_ok all) rs ->
+  forall rs : list run, Forall (run_on full) rs ->
   forall pre post, all_events hash (run_all hash heq HS rs []) = pre ++ post ->
   exists P E reps,
     P <= E /\ E <= P + 1 /\ E <= length (plan all) /\ length reps = E /\
@@ -73,7 +75,7 @@ Theorem C09_never_overclaims :
     claimed_plan hash all (tbl_of_events hash pre []) = firstn P (plan all) /\
     (forall r, In r (tbl_of_events hash pre []) ->
        exists f, In f all /\ claim_ok hash HS f r (r_applied r) /\ r_total r = length (f_stmts f)).
-Proof. exact (never_overclaims_runs hash heq HS heq_spec all all_sorted all_no_checkpoint). Qed.
+Proof. exact (never_overclaims_full hash heq HS heq_spec full full_sorted). Qed.
 
 (** 3. Resume. For ANY sequence of runs, each with its own fault stream and
     count: the concatenated journal is the plan up to some position [E], in
@@ -82,48 +84,48 @@ Proof. exact (never_overclaims_runs hash heq HS heq_spec all all_sorted all_no_c
     bookkeeping writes that directly followed a statement; the final table
     claims the plan up to [P] with [P <= E <= P + 1]. *)
 Theorem C09_resume :
-  forall rs : list run, Forall (run_ok all) rs ->
+  forall rs : list run, Forall (run_on full) rs ->
   let outs := run_all hash heq HS rs [] in
   exists P E reps,
     P <= E /\ E <= P + 1 /\ E <= length (plan all) /\ length reps = E /\
     journal (all_events hash outs) = expand (firstn E (plan all)) reps /\
     list_sum reps <= wf_all hash outs /\
     claimed_plan hash all (final_tbl hash outs []) = firstn P (plan all).
-Proof. exact (resume_lemma hash heq HS heq_spec all all_sorted all_no_checkpoint). Qed.
+Proof. exact (resume_full hash heq HS heq_spec full full_sorted). Qed.
 
 (** 3b/5. After any such history, one more run without faults and without a
     count completes the migration: every planned statement is in the journal, in
     order (repeats as above); every file's stored revision has
     Applied = Total = its statement count; Pending answers "nothing to do". *)
 Theorem C09_complete_marks_done :
-  forall (rs : list run) (c : cfg), Forall (run_ok all) rs -> cfg_ok c ->
-  let outs := run_all hash heq HS (rs ++ [mkRun c 0 all []]) [] in
+  forall (rs : list run) (c : cfg), Forall (run_on full) rs -> cfg_ok c ->
+  let outs := run_all hash heq HS (rs ++ [mkRun c 0 full []]) [] in
   let T := final_tbl hash outs [] in
   (exists reps, length reps = length (plan all) /\
                 journal (all_events hash outs) = expand (plan all) reps /\
                 list_sum reps <= wf_all hash outs) /\
   (forall f, In f all -> exists r, tbl_get T (f_version f) = Some r /\
                                    r_applied r = length (f_stmts f) /\ r_total r = length (f_stmts f)) /\
-  (forall c', cfg_ok c' -> pending c' all (read_revisions hash T) = (PNoPending, None)).
-Proof. exact (complete_lemma hash heq HS heq_spec all all_sorted all_no_checkpoint). Qed.
+  (forall c', cfg_ok c' -> pending c' full (read_revisions hash T) = (PNoPending, None)).
+Proof. exact (complete_full hash heq HS heq_spec full full_sorted). Qed.
 
 (** 4. Exactly once. If no revision write fails in any run (only statements
     fail, anywhere, any number of times), then after a final fault-free run the
     journal IS the plan: every statement exactly once over all attempts, in
     order. Without the final run the journal is a prefix of the plan. *)
 Theorem C09_exactly_once :
-  forall (rs : list run) (c : cfg), Forall (run_ok all) rs -> cfg_ok c ->
-  let outs := run_all hash heq HS (rs ++ [mkRun c 0 all []]) [] in
+  forall (rs : list run) (c : cfg), Forall (run_on full) rs -> cfg_ok c ->
+  let outs := run_all hash heq HS (rs ++ [mkRun c 0 full []]) [] in
   (forall out r, In out outs -> ~ In (EWrite r false) (snd out)) ->
   journal (all_events hash outs) = plan all.
-Proof. exact (exactly_once_lemma hash heq HS heq_spec all all_sorted all_no_checkpoint). Qed.
+Proof. exact (exactly_once_full hash heq HS heq_spec full full_sorted). Qed.
 
 Theorem C09_exactly_once_prefix :
-  forall rs : list run, Forall (run_ok all) rs ->
+  forall rs : list run, Forall (run_on full) rs ->
   let outs := run_all hash heq HS rs [] in
   (forall out r, In out outs -> ~ In (EWrite r false) (snd out)) ->
   exists E, E <= length (plan all) /\ journal (all_events hash outs) = firstn E (plan all).
-Proof. exact (once_prefix_lemma hash heq HS heq_spec all all_sorted all_no_checkpoint). Qed.
+Proof. exact (once_prefix_full hash heq HS heq_spec full full_sorted). Qed.
 
 End Hist.
 
@@ -203,13 +205,13 @@ Example C09_stop_on_fault_nonvacuous :
 Proof. vm_compute. repeat split; reflexivity. Qed.
 
 Example C09_resume_nonvacuous :
-  Forall (run_ok ex_all) ex_runs /\
+  Forall (run_on ex_all) ex_runs /\
   let outs := run_all bytes bytes_eqb (fun b => b) ex_runs [] in
   journal (all_events bytes outs) =
     expand (plan ex_all) [1; 0; 0; 0] /\
   map snd (journal (all_events bytes outs)) = [[65%N]; [65%N]; [66%N]; [67%N]; [68%N]] /\
   wf_all bytes outs = 1 /\
-  claimed_plan bytes ex_all (final_tbl bytes outs []) = plan ex_all.
+  claimed_plan bytes (from_last_ckpt ex_all) (final_tbl bytes outs []) = plan ex_all.
 Proof.
   split; [repeat constructor|]. vm_compute. repeat split; reflexivity.
 Qed.
@@ -227,7 +229,7 @@ Example C09_exactly_once_nonvacuous :
               mkRun ex_cfg 1 ex_all [false; true];                      (* B fails again, count 1 *)
               mkRun ex_cfg 0 ex_all [false; false; false; false; false; false; false; true] ] in (* D fails *)
   let outs := run_all bytes bytes_eqb (fun b => b) (rs ++ [mkRun ex_cfg 0 ex_all []]) [] in
-  Forall (run_ok ex_all) rs /\
+  Forall (run_on ex_all) rs /\
   forallb (fun out => forallb (fun e => match e with EWrite _ false => false | _ => true end) (snd out)) outs = true /\
   map (fun x => fst (fst x)) outs = [RExec OStmtErr; RExec OStmtErr; RExec OStmtErr; RExec ODone] /\
   journal (all_events bytes outs) = plan ex_all.
@@ -238,3 +240,20 @@ Example C09_complete_marks_done_nonvacuous :
   map (fun r => (r_applied r, r_total r, r_hashes r)) (final_tbl bytes outs []) = [(2, 2, []); (2, 2, [])] /\
   fst (pending ex_cfg ex_all (read_revisions bytes (final_tbl bytes outs []))) = PNoPending.
 Proof. vm_compute. split; reflexivity. Qed.
+
+(** a directory with two checkpoint files: a fresh database starts at the last
+    checkpoint (file 3); its second statement's bookkeeping write fails, the next
+    run resumes inside the checkpoint file and goes on with file 4. *)
+Definition ck_all : list file :=
+  [ mkFile [49%N] [[65%N]] true; mkFile [50%N] [[66%N]] false;
+    mkFile [51%N] [[67%N]; [68%N]] true; mkFile [52%N] [[69%N]] false ].
+Example C09_resume_checkpoint_nonvacuous :
+  sorted_files ck_all /\
+  from_last_ckpt ck_all = [ mkFile [51%N] [[67%N]; [68%N]] true; mkFile [52%N] [[69%N]] false ] /\
+  let rs := [ mkRun ex_cfg 0 ck_all [false; false; false; false; true]; mkRun ex_cfg 0 ck_all [] ] in
+  Forall (run_on ck_all) rs /\
+  map snd (journal (all_events bytes (run_all bytes bytes_eqb (fun b => b) rs []))) = [[67%N]; [68%N]; [68%N]; [69%N]].
+Proof.
+  split; [unfold sorted_files, fver_lt; repeat constructor|]. split; [reflexivity|].
+  split; [repeat constructor|]. vm_compute. reflexivity.
+Qed.
